@@ -169,8 +169,13 @@ func (fr *frame) runDefer(d *deferred) {
 	defer func() {
 		if !ok {
 			// Deferred call created a new state of panic.
+			r := recover()
+			switch r.(type) {
+			case pathAbort, internalError:
+				panic(r)
+			}
 			fr.panicking = true
-			fr.panic = recover()
+			fr.panic = fr.i.wrapPanic(fr, r)
 		}
 	}()
 	call(fr.i, fr, d.instr.Pos(), d.fn, d.args)
